@@ -807,6 +807,70 @@ func runGlobal(c *core.Ctx) []core.Obligation {
 					}
 				})
 			}
+			// a package-level POINTER to a struct (after round-6 seed C13-r6m2, shared default *EdgeQueryOptions): the
+			// variable is never written, but the object it points to is shared by everything the pointer is handed
+			// to. Storing the loaded pointer into an object's field, or returning it, gives every such object the
+			// same mutable struct - one query's option changes then show up in all the others.
+			if pt, isPtr := g.Type().(*types.Pointer).Elem().Underlying().(*types.Pointer); isPtr {
+				if _, isStruct := pt.Elem().Underlying().(*types.Struct); isStruct {
+					for _, fn := range c.GeoFuncs() {
+						if initOnly[fn] || (fn.Parent() != nil && initOnly[fn.Parent()]) {
+							continue
+						}
+						core.AllInstrs(fn, func(in ssa.Instruction) {
+							ld, ok := in.(*ssa.UnOp)
+							if !ok || ld.Op != token.MUL || ld.X != ssa.Value(g) {
+								return
+							}
+							seen := map[ssa.Value]bool{}
+							var escapes func(v ssa.Value) string
+							escapes = func(v ssa.Value) string {
+								if seen[v] {
+									return ""
+								}
+								seen[v] = true
+								for _, r := range *v.Referrers() {
+									switch u := r.(type) {
+									case *ssa.Store:
+										if u.Val == v {
+											if _, local := u.Addr.(*ssa.Alloc); !local {
+												return "stored into an object"
+											}
+										}
+									case *ssa.Return:
+										return "returned"
+									case *ssa.Phi:
+										if w := escapes(u); w != "" {
+											return w
+										}
+									case *ssa.MakeInterface:
+										return "converted to an interface"
+									case *ssa.FieldAddr:
+										// a pointer held in a field of the shared object is just as shared
+										if u.X != v {
+											continue
+										}
+										for _, fr := range *u.Referrers() {
+											if l2, ok := fr.(*ssa.UnOp); ok && l2.Op == token.MUL {
+												switch l2.Type().Underlying().(type) {
+												case *types.Pointer, *types.Map, *types.Slice:
+													if w := escapes(l2); w != "" {
+														return w
+													}
+												}
+											}
+										}
+									}
+								}
+								return ""
+							}
+							if w := escapes(ld); w != "" {
+								bad = append(bad, fmt.Sprintf("%s at %s (the shared pointer is %s)", core.FuncName(fn), c.Pos(in.Pos()), w))
+							}
+						})
+					}
+				}
+			}
 			if len(bad) > 0 {
 				obs = append(obs, core.Ob("R-GLOBAL", construct, c.Pos(g.Pos()), "", core.Violated,
 					"package-level variable written after initialisation by "+strings.Join(bad, ", ")+": answers may depend on call history and concurrent queries race on it"))
